@@ -15,11 +15,11 @@ COMMON_NOTE = ("Trusted base: Lean 4.33.0 kernel (+ leanchecker in the thorough 
 
 META = {
  "C01": dict(ref="6.1", technique="Lean 4 proof (route-independent dispatcher theorem, proved sieve/window oracles) + correspondence",
-   text="Theorems: the size dispatcher returns pi(x) whenever each route does (Legendre/Meissel/Gourdon identities are proved in PcProofs/Spec for all x and parameters); decimal rendering round-trips; the oracles used as judge (trial division, sieve, window count) are proved equal to Nat.primeCounting. The tie to the code is the correspondence stream over all entry points.",
-   note="Proved (C01Top, C02Top, C02Algs, C08*): the dispatcher of api.cpp with every route discharged (piApi_eq_pi), pi_deleglise_rivat (every accepted x < 2^106), pi_gourdon (x < 2 or x >= 2401), pi_lmo5, pi_lmo_parallel, pi_legendre/meissel/lehmer/lmo1..4, each with every term computed by its real-control-flow model, for every float outcome in the named envelopes and every run of every parallel region. Remaining named hypotheses: table / iterator / sieve contracts (TablesOK, proved for the constructor models in C17, adapter in progress), PhiContract (C07Cache proves it for the real cache), the AC hook (proved in C08EasyAC: wiring in progress), float envelopes. Source-mirror obligations pin the text of ~430 modelled functions."),
+   text="End-to-end theorems over a world in which every object is the model of the real constructor (C01Closed3/4): pi(x) through the dispatcher of api.cpp for every int128 x, pi_gourdon_64/128 and pi_deleglise_rivat_64/128 for every accepted x, with every term computed by its real-control-flow model, phi over bit-level PhiCache objects, P2/B over the modelled primesieve iterator and sieving core; decimal rendering round-trips; the oracles used as judge (trial division, sieve, window count) are proved equal to Nat.primeCounting. The tie to the code is the source mirror (about 430 functions), generated table obligations and the correspondence streams over all entry points.",
+   note="Remaining hypotheses of the closed theorems, and nothing else: named float envelopes (GourdonEnv, DrEnv, h53, FloatOk - a theorem below 2^50), 'the OpenMP runtime produces SOME schedule / accepted history' (all quantified), the literature fact pi(n) <= pix_upper(n), model size parameters (table reach, sieving primes < 2^32). A recorded dispenser history that is not a run of the dispenser model yields badRun. Accumulator overflow: C16."),
  "C02": dict(ref="6.2", technique="Lean 4 proof (Legendre, Meissel, Lehmer, LMO, Deleglise-Rivat and Gourdon identities for all x) + correspondence",
    text="Every algorithm evaluates an identity that is proved in Lean for all x and all admissible parameters (legendre, meissel, lehmer, pi_lmo, pi_dr, GParams.pi_gourdon); the REAL control flow of pi_legendre, pi_meissel, pi_lehmer, P3, pi_lmo1..4 (incl. the segmented sieve engine for every segment size and the Fenwick tree) is modelled and proved = pi(x) for all x; each remaining implementation is tied to the terms of its identity by exhaustive small ranges and structured samples against the proved sieve oracle.",
-   note="pi_lmo5 / pi_lmo_parallel / pi_deleglise_rivat / pi_gourdon compositions are proved (C02Top, C02TopLmo) modulo the named contracts listed under C01; Gourdon for 2 <= x < 2401 (get_k < 4) is covered by the exhaustive streams only. int64 overflow freedom of accumulators: C16Safety*."),
+   note="pi_lmo5 / pi_lmo_parallel / pi_deleglise_rivat / pi_gourdon are proved over the world (C02ClosedLmo, C02ClosedAll, C01Closed3/4) for every x of their domain incl. the degenerate Gourdon arguments 2 <= x < 16; remaining hypotheses as listed under C01. int64 overflow freedom of accumulators: C16Safety*."),
  "C03": dict(ref="6.3", technique="Lean 4 proof (dispenser totality over all event lists, reductions under permutation) + trace acceptance",
    text="For every event list (any worker count, order, clock trace) accepted by the L2 step relation the chunks partition the range and the accumulated sum is the sum of an additive per-chunk function; reductions are permutation invariant; an atomic counter hands out each index once. Real balancer objects are driven by simulated workers and every recorded history must be accepted.",
    note="Proved for every accepted history / schedule: P2, B, S1, Phi0, S2_easy, S2_hard, D, AC regions; C03Closed: two executions of the closed world that share nothing (threads, print, runs, clock traces) return equal counts. Mutual exclusion of omp locks, OpenMP reductions/barriers and std::atomic are trusted runtime semantics (each region is assumed to produce SOME accepted history)."),
@@ -31,7 +31,7 @@ META = {
    note="C05Closed: pi_increment_counts_primes as a corollary of the closed end-to-end theorem (also across the int64 boundary); a shift of pi that is constant over every explored window is invisible to the sampled half of this check (see C01 / C17)."),
  "C06": dict(ref="6.6", technique="Lean 4 proof (walk from an arbitrary approximation reaches the n-th prime) + correspondence",
    text="nth_prime's search is proved to return the n-th prime for every approximation of R^-1 and both walk directions, over the REAL iterator model of the bundled primesieve (nth_prime_cpp_correct: every 1 <= n <= max_n, every approximation in [0, 2^63), every hint and float outcome), incl. the C wrapper (-1 exactly on domain errors) and the CLI narrowing; table entries are kernel-checked obligations generated from the source.",
-   note="named hypotheses: GenSpec (sieving core: proved in C18CoreContract, wiring in progress), pi = pi on int64 (C01Top), pi_cache (C17), RiemannR_inverse returns a value in [0, 2^63), the literature constant p(max_n) < 2^63."),
+   note="nth_prime_cpp_world (C06NthWorld): the pi hypothesis is discharged by the dispatcher recursion; remaining: RiemannR_inverse returns a value in [0, 2^63) (float), the literature constant p(max_n) < 2^63, the world / OpenMP-run hypotheses of C01."),
  "C07": dict(ref="6.7", technique="Lean 4 proof (guards, tiny tables by periodicity, recursion for any cache) + correspondence",
    text="phi's guards, the PhiTiny formula (periodicity), the recursive algorithm and the REAL PhiCache (constructor geometry, init_cache bit sieve with prefix counts, phi_cache lookup, the c = larger_c side effect, per-thread caches, phi_vector's copy) are modelled bit for bit and proved: phi_cpp_correct — phi(x, a) = the Legendre sum for all x, a, every float estimate and every thread distribution; the uint32 counts never truncate; tables are generated from the binary and kernel-checked.",
    note="pix_upper bound (two guards of phi_OpenMP) is a named hypothesis; pi_noprint = pi (C01) and the prime vector / PiTable (C17) are parameters."),
@@ -67,7 +67,7 @@ META = {
    note="prime generator = abstract prime sequence (C18). Large multi-threaded tables are compared by hash with the mirror model and a differing entry is judged against the documented encoding."),
  "C18": dict(ref="6.18", technique="Lean 4 proof (iterator state machine refines the abstract prime cursor for every history; segmented wheel sieve, pre-sieve, bucket sieve and prime extraction proved to yield exactly the primes of [start, stop]) + generated table obligations + bit-exact segment-level correspondence — partial",
    text="partial: (a) the iterator layer (iterator.cpp, IteratorHelper.cpp, the table path of PrimeGenerator, nthPrime, ParallelSieve tiling, store_primes) is an L2 state machine proved to refine the abstract cursor (k-th next_prime = k-th prime >= start, prev_prime likewise then 0) for every stop hint, every float outcome and every batching, given the generator contract; (b) the sieving core (Erat, EratSmall/Medium/Big, PreSieve, SievingPrimes, bit extraction, counting) is modelled bit-exactly and proved: segment_sieve_correct, generator_contract, count_contract for every start, every stop < 2^64 and every sieve size; the wheel / pre-sieve / small-primes tables are regenerated from the source and kernel-checked; every segment's raw sieve array is compared bit for bit with the real classes.",
-   note="partial because: FloatOk (maxEratMedium < 2^25, a float product) is a named hypothesis for stop >= 2^50; the instantiation of the iterator's GenSpec by the core's generator_contract is not yet a theorem; SIMD variants (AVX512/NEON/SVE PrimeGenerator, PreSieve), MemoryPool, ctz/popcnt are tied by correspondence only; above 1e14 the executable oracle of the iterator streams is deterministic Miller-Rabin (not proved)."),
+   note="partial because: FloatOk (maxEratMedium < 2^25, a float product) is a named hypothesis for stop >= 2^50; SIMD variants (AVX512/NEON/SVE PrimeGenerator, PreSieve), MemoryPool, ctz/popcnt are tied by correspondence only; above 1e14 the executable oracle of the iterator streams is deterministic Miller-Rabin (not proved). Closed: history_correct over the real core (C18ClosedHist), store_primes / generate_primes, nth_prime, the parallel count for every thread count up to 27709467 incl. stop = 2^64-1 (C18ClosedTop; beyond that bound ParallelSieve's unchecked align(start)+1 wraps - unreachable through the public API, recorded)."),
  "C19": dict(ref="6.19", technique="Lean 4 proof (series monotone, saturation, termination) + enclosure correspondence — partial",
    text="partial: integer/rational logic of Li/R and inverses proved; accuracy vs true functions depends on libm/x87.",
    note="real analysis and long double not formalised."),
